@@ -32,7 +32,7 @@ TypeOf(id) == id % 4
 \* per half extra bookkeeping on top of StreamSMOps' records
 SF == [fin |-> FALSE, rst |-> FALSE, stop |-> -1, freed |-> FALSE, finDelivered |-> FALSE,
        finishedEv |-> 0, stoppedEv |-> 0]
-RF == [term |-> "none", stopped |-> FALSE, finArr |-> FALSE, rstArr |-> -1, unord |-> FALSE]
+RF == [term |-> "none", stopped |-> FALSE, finArr |-> FALSE, rstArr |-> -1, unord |-> FALSE, dataArr |-> FALSE]
 S(k) == At(snd, k, SF)
 R(k) == At(rcv, k, RF)
 
@@ -109,6 +109,10 @@ Op ==
                                                     ELSE e.res = "ClosedStream"),
                                        "ReadResultNotInTable")
                           \cup Flag(e.res = "Finished" => r.finArr, "EndOfStreamWithoutFin")
+                          \* the end is reported by the read that delivers the last byte below the final size,
+                          \* not as soon as the final size is known
+                          \cup Flag((e.res = "Finished" /\ e.br0 # -1) => (e.fs0 # -1 /\ e.br0 + e.tot = e.fs0),
+                                    "EndOfStreamBeforeAllData")
                           \cup Flag(e.res = "Reset" => r.rstArr = e.code, "ResetOutcomeWithoutReset")
             /\ rcv' = IF e.res = "Finished" THEN Set(rcv, k, [r EXCEPT !.term = "eos"])
                       ELSE IF e.res = "Reset" THEN Set(rcv, k, [r EXCEPT !.term = "rst"])
@@ -158,6 +162,7 @@ ApplyArr(fr, k, sn, rc, us, sd) ==
                   ELSE IF f.k = "fin" THEN Set(sn, pk, [At(sn, pk, SF) EXCEPT !.finDelivered = TRUE])
                   ELSE sn
            rc2 == IF f.k = "fin" THEN Set(rc, key, [At(rc, key, RF) EXCEPT !.finArr = TRUE])
+                  ELSE IF f.k = "data" THEN Set(rc, key, [At(rc, key, RF) EXCEPT !.dataArr = TRUE])
                   ELSE IF f.k = "rst" /\ At(rc, key, RF).rstArr = -1
                        THEN Set(rc, key, [At(rc, key, RF) EXCEPT !.rstArr = f.code])
                   ELSE rc
@@ -185,6 +190,10 @@ AppEv ==
             /\ snd' = Set(snd, k, [s EXCEPT !.stoppedEv = @ + 1])
        [] e.k \in {"Readable", "Writable"} ->
             /\ bad' = bad \cup Flag(Known(e.side, e.id), "EventForUnknownStream")
+                          \* Readable: the peer has sent something on that stream - data, its end or a reset
+                          \* (credit for OUR sending half is not it)
+                          \cup Flag(e.k = "Readable" => (R(k).dataArr \/ R(k).finArr \/ R(k).rstArr # -1),
+                                    "ReadableWithoutPeerData")
             /\ UNCHANGED snd
        [] OTHER -> UNCHANGED <<bad, snd>>
   /\ l' = l + 1 /\ UNCHANGED <<rcv, used, opened, acc, init, adv, cur>>
